@@ -819,8 +819,14 @@ class MaskedSel:
     def map(self, fn):
         return MaskedSel(fn(self.t), self.mask)
 
+    def _m(self):
+        m = self.mask
+        for _ in range(self.t.rank - m.rank):
+            m = ops.unsqueeze(m, -1)
+        return m
+
     def any(self):
-        return reduce("any", binop("and", self.mask, self.t))
+        return reduce("any", binop("and", self._m(), self.t))
 
     def all(self):
-        return reduce("all", binop("or", unop("invert", self.mask), self.t))
+        return reduce("all", binop("or", unop("invert", self._m()), self.t))
